@@ -13,6 +13,7 @@ import (
 	_ "verifharness/props/c07"
 	_ "verifharness/props/c08"
 	_ "verifharness/props/c09"
+	_ "verifharness/props/c11"
 	_ "verifharness/props/c13"
 	_ "verifharness/props/c14"
 	_ "verifharness/props/c15"
